@@ -157,8 +157,8 @@ impl Check for C01 {
     }
     fn meta(&self) -> Meta {
         Meta {
-            rule: "no panic, no hang (60 s watchdog), and the CPU time of each Vt::resize within a budget linear in the cells the terminal holds before and after (500 ms + 5 us per cell, ~50x the measured linear cost; an excess is re-measured three times on fresh terminals and the fastest of the four counts) - running time bounded by the work requested; chaos sessions (swarm profile of 17 token families incl. garbage / partial tokens, S5 damage, every cut policy, resizes and snapshots at any character position, every drain policy, sizes 1x1..132x50, resizes to and from very wide / very tall geometries (513..70000 in one dimension, bounded so that rows kept x new width <= 4M cells), limits None/0/1/2/5/9/10/11/20/100/10^6); a run is non-trivial if it fed >= 1 character and contained >= 1 environment event (resize, feed() loop, non-full drain, snapshot, observe); distinct = distinct final-screen digests among non-trivial runs",
-            assumptions: vec!["panics are observed through catch_unwind in a build with overflow-checks and debug-assertions on", "a hang is a run exceeding 60 s wall-clock (normal < 50 ms)", "the resize cost is measured as thread CPU time (CLOCK_THREAD_CPUTIME_ID), so descheduling on a loaded machine does not count", "allocation failure of legitimately huge requests and mem::forget(Changes) are out of scope"],
+            rule: "no panic, no hang (120 s watchdog), and the CPU time of each Vt::resize within a budget linear in the cells the terminal holds before and after (500 ms + 5 us per cell, ~50x the measured linear cost; an excess is re-measured three times on fresh terminals and the fastest of the four counts) - running time bounded by the work requested; chaos sessions (swarm profile of 17 token families incl. garbage / partial tokens, S5 damage, every cut policy, resizes and snapshots at any character position, every drain policy, sizes 1x1..132x50, resizes to and from very wide / very tall geometries (513..70000 in one dimension, bounded so that rows kept x new width <= 4M cells), limits None/0/1/2/5/9/10/11/20/100/10^6); a run is non-trivial if it fed >= 1 character and contained >= 1 environment event (resize, feed() loop, non-full drain, snapshot, observe); distinct = distinct final-screen digests among non-trivial runs",
+            assumptions: vec!["panics are observed through catch_unwind in a build with overflow-checks and debug-assertions on", "a hang is a run exceeding 120 s wall-clock (normal < 50 ms)", "the resize cost is measured as thread CPU time (CLOCK_THREAD_CPUTIME_ID), so descheduling on a loaded machine does not count", "allocation failure of legitimately huge requests and mem::forget(Changes) are out of scope"],
             real: vec!["avt::Vt (whole library)", "avt::parser::Parser (lock-step)", "avt::util::TextCollector"],
             simulated: vec!["App (token producer)", "Pipe (cuts, damage)", "Window (resizes)", "Snapshotter", "Consumer (drain policy)", "Observer (accessors)"],
             model: vec!["hidden-state tracker (only for in-flight boosting of the scheduler)"],
